@@ -257,7 +257,7 @@ func TestVerif_C03_RoundTrip(t *testing.T) {
 	defer m.Finish(t)
 	m.Rule("roundtrip: well-formed packets from every constructor with PRNG AMF0 trees / strings / numbers / uint32 boundary values; " +
 		"len(Marshal)==Size(), unmarshal into a fresh packet of the same type, re-marshal identical, scalar fields compared; distinct = kind x size bucket x optional-field shape")
-	n := m.N(20000, 400000)
+	n := m.N(20000, 2000000)
 	m.Require("evaluations", int64(n))
 	mon.Parallel(n, func(w, i int) {
 		r := m.Rand("pkt", i)
@@ -366,7 +366,7 @@ func TestVerif_C03_Wire(t *testing.T) {
 		"expected Go type from the dispatch table of the statement, _result/_error judged by a 15-line outstanding-table model run in lock-step " +
 		"(tids from a small pool incl. repeats, 0, negatives, fractions; duplicates, unsolicited and re-used tids); payload must re-marshal identically; " +
 		"distinct = (packet kind or response situation) x decoded type")
-	n := m.N(2000, 40000)
+	n := m.N(2000, 400000)
 	m.Require("evaluations", int64(n))
 	m.Require("result_matched", int64(n))
 	m.Require("result_without_request", int64(n/4))
@@ -572,7 +572,7 @@ func TestVerif_C03_Expect(t *testing.T) {
 	m.Rule("expect: a PRNG prefix of control and command packets (Set Chunk Size, window ack, peer bandwidth, user control, calls, responses to " +
 		"registered requests) followed by a target and a suffix; ExpectPacket(&typed) / ExpectMessage(types...) must return the first element of " +
 		"the requested type, having consumed exactly the elements before it (the next read returns the element after it); distinct = target kind x API x prefix length")
-	n := m.N(2000, 40000)
+	n := m.N(2000, 400000)
 	m.Require("evaluations", int64(n))
 	mon.Parallel(n, func(w, i int) {
 		r := m.Rand("expect", i)
